@@ -147,7 +147,7 @@ theorem invoked_after_events (c : Core) (sched' : Core → Option Err)
     simp only at h ⊢
     by_cases hn : needsSched cfg.maxRecompute c1 = true
     · simp only [if_pos hn]
-      rw [h rfl hn]
+      rw [h trivial hn]
     · simp only [if_neg hn]
   · rfl
 
@@ -332,6 +332,7 @@ theorem isolation_run (cfg : Sim.Cfg K) (sched sched' : View K → Except Err (S
     Sim.run cfg sched' n s = Sim.run cfg sched n s ∧ runViews cfg sched' n s = runViews cfg sched n s :=
   run_congr cfg sched sched' n s h
 
+omit [Add K] [Sub K] [Mul K] [Div K] [Neg K] [LE K] [DecidableLE K] [OfNat K 1] [NatCast K] [HasExp K] in
 /-- the infrastructure description is a function of the static configuration: one entry per
     registered station, in registration order -/
 theorem infra_static (cfg : Sim.Cfg K) : (infra cfg).map (·.id) = cfg.core.stations := by
@@ -357,7 +358,7 @@ def exSim : Sim.Cfg ℚ :=
     recomputes := [], maxRecompute := some 2, period := 5, atolCont := 1 / 1000, atolDeadband := 1 / 1000,
     atolFinite := 1 / 1000, fullEps := 1 / 1000, noise := [] }
 
-def exSched : View ℚ → Except Err (Schedule ℚ) := fun _ => .ok [("A", [16])]
+def exSched : View ℚ → Except Err (Schedule ℚ) := fun _ => .ok [("A", [16, 16])]
 
 /-- invoked in 0 (never run), 1 (plug-in), 3 (two periods), 4 (unplug); the session is visible in
     periods 1 and 3, the last pilot only in period 3 (empty in period 1 although … ≤ 1), the energy
